@@ -193,6 +193,8 @@ S_SNIPPETS = [
     "fn cv() {\n    a(); // caf\u00e9 \u2603\n}\nfn cw() { b() /* \u00e9\u00e9 */ }\n",
     "struct Al {\n    a: u8  , // \u00e9\u00e9\u00e9\u00e9\n\n    bb: u16, // x\n}\nfn al() { let _ = Al { a: 1  , // \u00e9\u00e9\n\n        bb: 2 }; }\n",
     "extern \"a\\nb\" { fn f(); }\nextern \"C\" { fn g(); }\n",
+    "extern \"C\\\n\" { fn f(); }\nunsafe extern r\"a\nb\" {}\n",
+    "#[cfg(any())] const FX: f32 = 0b1f32;\nfn fl() { let x = 0o7f64; let s = 0b1f32..; let t = 1.0f32; let u = 2.; }\n",
 ]
 LEX_WS = ["\u0085", "\u200e", "\u200f", "\u2028", "\u2029"]      # white space for the lexer (Pattern_White_Space)
 UNI_WS = ["\u3000", "\u00a0", "\u2003", "\u1680", "\u2028", "\u2029", "\u0085"]  # Unicode White_Space
@@ -227,7 +229,7 @@ def gen_seeded(rng):
                     ("brace_style", ["AlwaysNextLine", "PreferSameLine", "SameLineWhere"]),
                     ("error_on_line_overflow", [True, False]), ("error_on_unformatted", [True, False]),
                     ("blank_lines_upper_bound", [0, 1, 4, 18446744073709551615]),
-                    ("blank_lines_lower_bound", [0, 1]), ("use_try_shorthand", [True, True, False]),
+                    ("blank_lines_lower_bound", [0, 1]), ("use_try_shorthand", [True, True, False]), ("float_literal_trailing_zero", ["Always", "IfNoPostfix", "Never", "Preserve"]),
                     ("struct_field_align_threshold", [0, 20, 60]), ("format_macro_bodies", [True, False])):
         if rng.chance(45):
             cfg[k] = rng.choice(vals)
